@@ -970,3 +970,21 @@ m('S1-leaf-states-shared-between-nodes', 'C11', 'S1', 'ToPickleable/one-state-pe
             node.custom != nullptr ? py::handle{node.custom->type.ptr()} : py::handle{},
             node.node_data};
         TupleSetItem(node_states,""")
+m('G7-unregister-leaves-one-registry', 'C12', 'G7', 'PyTreeTypeRegistry::Unregister/both-variants', 'src/registry.cpp',
+  """    const auto registration1 = UnregisterImpl<NONE_IS_NODE>(cls, registry_namespace);""",
+  """    const auto registration1 = UnregisterImpl<NONE_IS_LEAF>(cls, registry_namespace);""")
+m('G7-register-second-registry-only-for-namespaces', 'C12', 'G7', 'PyTreeTypeRegistry::Register/unconditional', 'src/registry.cpp',
+  """    RegisterImpl<NONE_IS_LEAF>(cls,
+                               flatten_func,
+                               unflatten_func,
+                               path_entry_type,
+                               registry_namespace);
+    cls.inc_ref();""",
+  """    if (!registry_namespace.empty() || !path_entry_type.is_none()) [[likely]] {
+        RegisterImpl<NONE_IS_LEAF>(cls,
+                                   flatten_func,
+                                   unflatten_func,
+                                   path_entry_type,
+                                   registry_namespace);
+    }
+    cls.inc_ref();""")
